@@ -147,10 +147,22 @@ def _trim(l: List[int]) -> List[int]:
 def decode_frame(hdr_b: bytes, pay: bytes, frames: Dict[int, bytes], timecode: bool) -> str:
     cd = _cd()
     H = header_cls(timecode)
-    h = H.from_buffer_copy(hdr_b)
+    hs = ctypes.sizeof(H)
+    h = H.from_buffer_copy((hdr_b + bytes(hs))[:hs])
     head = f"{h.msg_count} {h.msg_type} {h.src_mod_id} {h.dest_mod_id} {h.dest_host_id} {h.num_data_bytes}"
+    if len(hdr_b) != hs:
+        # a header of the wrong size for this manager's layout (the byte-stream check reports it as a broken frame)
+        return head + f" BADHDR {len(hdr_b)}"
     if len(pay) != h.num_data_bytes:
         return head + f" BADLEN {len(pay)}"
+    try:
+        return _decode_body(h, hdr_b, pay, frames, head)
+    except Exception as e:  # noqa: BLE001  an undecodable payload is an observation, not a harness failure
+        return head + f" BADBODY {type(e).__name__}"
+
+
+def _decode_body(h, hdr_b: bytes, pay: bytes, frames: Dict[int, bytes], head: str) -> str:
+    cd = _cd()
     t = h.msg_type
     if h.send_time >= TAG:
         k = int(round(h.send_time - TAG))
@@ -250,6 +262,8 @@ def streams_whole(streams: Dict[int, bytes], partial_ok: set, timecode: bool) ->
                 return f"uid {u}: truncated header at {pos}"
             h = H.from_buffer_copy(b[pos:pos + hs])
             n = h.num_data_bytes
+            if n < 0:
+                return f"uid {u}: frame at {pos} declares {n} bytes"
             if pos + hs + n > len(b):
                 if u in partial_ok and pos + hs == len(b):
                     break
